@@ -18,13 +18,16 @@ def emit(ctx, rep, dialect, profile, maxstmts):
 
 
 def _one(job):
-    config, text, tree, lay = job
+    config, text, tree, lay, errs = job
     obs = loaders.load(config, text)
-    ref = {"verdict": "accept", "tree": tree, "errs": [], "locus": "accept"}
+    if errs and loaders.GRAMMAR_CFG[config] != "tolerant":
+        ref = {"verdict": "reject", "tree": tree, "errs": [], "locus": "missing-value"}
+    else:
+        ref = {"verdict": "accept", "tree": tree, "errs": errs, "locus": "accept"}
     j = loaders.judge(ref, obs, loaders.GRAMMAR_CFG[config] == "tolerant")
     if j is None:
         return None
-    return (j[0], {"config": config, "locus": "accept", "features": loaders.features(tree) + loaders.text_features(text) + ["layout:" + lay],
+    return (j[0], {"config": config, "locus": ref["locus"], "features": loaders.features(tree) + loaders.text_features(text) + ["layout:" + lay],
                    "observed": j[1]},
             {"config": config, "text": text}, {"expected_tree": tree, "observed": obs})
 
@@ -41,7 +44,7 @@ def run_docs(ctx, rep, profile, maxstmts, owner):
             lay = c["lay"]
             sep = lay["sep"]
             layname = "%s%s" % (lay["k"], (":sep%d" % sep) if lay["k"] == "one" else (":%d" % sep))
-            jobs.append((config, loaders.cps(c["text"]), loaders.from_tla(c["tree"]), layname))
+            jobs.append((config, loaders.cps(c["text"]), loaders.from_tla(c["tree"]), layname, [int(x) for x in c.get("errs", [])]))
         res = pool_map(_one, jobs, chunksize=300)
         for j, out in zip(jobs, res):
             rep.case("docs/%s/%s" % (profile, config), (config, j[1]), len(j[2]["xs"]) > 1 or any(x["xs"][0]["xs"] for x in j[2]["xs"]))
@@ -51,6 +54,8 @@ def run_docs(ctx, rep, profile, maxstmts, owner):
                 prop = out[0]
                 if owner == "C04" and prop == "C03":
                     prop = "C04"
+                if owner == "C08" and prop in ("C03", "C05"):
+                    prop = "C08"
                 fails.append((prop,) + out[1:])
         mid = jobs[len(jobs) // 2]
         rep.sample({"config": config, "text": mid[1], "layout": mid[3]}, limit=10)
